@@ -283,7 +283,8 @@ Definition strip_rows (rows : list row) (sep : str) : list row :=
 Definition frame_attrs (path_col : str) (a : attrs) : attrs :=
   filter_attributes a [k_name; path_col] true.
 
-(* construct.py:930-1035 dataframe_to_tree and 1166-1272 polars_to_tree, on the row list.
+(* construct.py:930-1038 dataframe_to_tree and 1169-1275 polars_to_tree, on the row list (pandas:
+   rows read with to_dict(orient="records") since fix F9, so the frame's index labels play no role).
    The root is created with the default separator "/" and gets `sep` only at the end. *)
 Definition frame_to_tree (rows : list row) (path_col sep : str) (dup : bool) : res tree :=
   match strip_rows rows sep with
@@ -315,7 +316,7 @@ Definition add_dict_to_tree_by_path (t : tree) (tsep : str) (d : list row) (sep 
   | _ => add_rows t tsep sep dup d []
   end.
 
-(* construct.py:249-344 and 417-514 *)
+(* construct.py:249-344 (rows via to_dict(orient="records"), fix F9) and 417-514 *)
 Definition add_frame_to_tree_by_path (t : tree) (tsep : str) (rows : list row) (path_col sep : str)
            (dup : bool) : tree * res (list pos) :=
   match strip_rows rows sep with
